@@ -48,14 +48,36 @@ class Node:
 
 MISSING = object()
 
+FLAVOURS = ('falsy', 'empty', 'equal')
+_flavoured = {}
+
+
+def flavoured(base, flavour):
+    """subclass of `base` whose INSTANCES have unusual truthiness / equality (identity is what counts):
+    falsy: __bool__ False; empty: __len__ 0; equal: == everything, constant hash"""
+    if flavour == 'plain':
+        return base
+    if (base, flavour) not in _flavoured:
+        ns = {'falsy': {'__bool__': lambda self: False},
+              'empty': {'__len__': lambda self: 0},
+              'equal': {'__eq__': lambda self, other: True, '__ne__': lambda self, other: False,
+                        '__hash__': lambda self: 7}}[flavour]
+        _flavoured[(base, flavour)] = type(flavour.capitalize() + base.__name__, (base,), dict(ns))
+    return _flavoured[(base, flavour)]
+
+
 
 class Ctx:
-    def __init__(self):
+    def __init__(self, flavour='plain'):
         self.n = 0
+        self.flavour = flavour
 
     def handle(self):
         self.n += 1
-        return TokHandle('h%d' % self.n)
+        return flavoured(TokHandle, self.flavour)('h%d' % self.n)
+
+    def map(self):
+        return flavoured(ResourceMap, self.flavour)()
 
 
 def make_value(sp, kind, cx):
@@ -64,13 +86,13 @@ def make_value(sp, kind, cx):
         h = cx.handle()
         return h, h, repr(h)
     if kind == 1:
-        r = ResourceMap()
+        r = cx.map()
         return r, Node(r), 'ResourceMap()'
     if kind == 2:
         # pre-populated: handle 'a' and sub-map 'b'
-        r = ResourceMap()
+        r = cx.map()
         h = cx.handle()
-        sub = ResourceMap()
+        sub = cx.map()
         r['a'] = h
         r['b'] = sub
         n = Node(r)
@@ -79,7 +101,7 @@ def make_value(sp, kind, cx):
         return r, n, "map{a: %r, b: map{}}" % h
     # kind 3: two-layer handles, built the way DirectoryResourcePopulator nests conflicting handles:
     # lower layer {a: h1, b: h0}, upper layer {a: h2}
-    r = ResourceMap()
+    r = cx.map()
     h1, h0, h2 = cx.handle(), cx.handle(), cx.handle()
     r['a'] = h1
     r['b'] = h0
@@ -252,13 +274,18 @@ def stored_in(holder, obj):
 
 
 def h_tree(sp, L=2, alphabet=('a', 'b', ''), depth=3, values=(0, 1, 2, 3), ops=('set', 'clear', 'nest'),
-           via=False, clauses=ALL_CLAUSES, reinsert=False, same=True):
+           via=False, clauses=ALL_CLAUSES, reinsert=False, same=True, flavours=('plain',)):
     alphabet = tuple(alphabet)
     clauses = tuple(clauses)
     ops = list(ops)
-    m = ResourceMap()
+    # instance flavour of every handle and map of this history (the root included)
+    flavour = sp.pick(list(flavours), 'flavour')
+    cx = Ctx(flavour)
+    m = cx.map()
     root = Node(m)
-    cx = Ctx()
+    if flavour != 'plain':
+        sp.note('all handles and maps are %s instances' % flavour)
+        sp.cover('flavour-' + flavour)
     # reinsert=True: objects that were stored earlier in this history and are stored nowhere now (displaced by
     # a later assignment, or dropped by clear()); a set op may store one of them again.  An object is never
     # stored at two places at once (outside the claim).  Entries: TokHandle | Node with .obj set.
@@ -324,7 +351,7 @@ def h_tree(sp, L=2, alphabet=('a', 'b', ''), depth=3, values=(0, 1, 2, 3), ops=(
                         displaced.append((v, v, real_walk(m, comps[:i - 1]),
                                           model_lookup(root, comps[:i - 1]), comps[i - 1]))
                 if old is not MISSING and how != 'same':
-                    real_old = old if isinstance(old, TokHandle) else (old.obj or real_walk(m, comps))
+                    real_old = old if isinstance(old, TokHandle) else (old.obj if old.obj is not None else real_walk(m, comps))
                     displaced.append((old, real_old, real_walk(m, comps[:-1]),
                                       model_lookup(root, comps[:-1]), comps[-1]))
                 # does the assignment or an intermediate replace a handle / a map of the other kind?
@@ -463,6 +490,10 @@ _REINS_REQ = ['handle-read', 'deep-handle-read', 'map-over-handle', 'handle-over
               'reassign-same-handle', 'reassign-same-map',
               'reinsert-same-map-other-name', 'reinsert-map-same-map-other-name', 'clear-nonempty']
 
+_FLAV_REQ = ['flavour-falsy', 'flavour-empty', 'flavour-equal', 'handle-read', 'deep-handle-read', 'map-over-handle',
+             'handle-over-map', 'layered-value', 'clear-nonempty', 'reassign-same-handle', 'reassign-same-map',
+             'clear-with-shadowed-handle']
+
 _SMALL = dict(L=2, alphabet=['a', 'b'], depth=2)
 TIERS = {
     'quick': [
@@ -472,6 +503,7 @@ TIERS = {
         ('tree', dict(L=2, alphabet=['a', 'b', ''], depth=3)),
         ('tree', dict(L=3, alphabet=['a', 'b'], depth=2, values=[0, 1, 2], ops=['set', 'clear'], reinsert=True),
          {'required': _REINS_REQ}),
+        ('tree', dict(L=2, alphabet=['a', 'b'], depth=2, flavours=FLAVOURS), {'required': _FLAV_REQ}),
     ],
     'thorough': [
         ('focus', dict(_SMALL, clauses=['backlink'])),
@@ -484,6 +516,8 @@ TIERS = {
         ('via', dict(L=4, alphabet=['a', 'b'], depth=2, values=[0, 2], ops=['set'], via=True, reinsert=True),
          {'required': _REINS_REQ[:-1] + ['set-via-submap']}),
         ('tree', dict(L=3, alphabet=['a', 'b', ''], depth=3, values=[0, 3])),
+        ('tree', dict(L=3, alphabet=['a', 'b'], depth=2, flavours=FLAVOURS, reinsert=True),
+         {'required': _FLAV_REQ + ['reinsert', 'nest', 'implicit-map']}),
         ('via', dict(L=4, alphabet=['a'], depth=2, via=True)),
     ],
 }
@@ -505,13 +539,17 @@ BOUNDS = {
              "components, values {handle, empty map, map{a: handle, b: map}, map with two-layer handles}, "
              "ops {set, nest, clear of root or any reachable sub-map}, all histories of 2 ops; re-insertion: names a,b, "
              "keys of 1-2 components, values {handle, empty map, pre-populated map, any displaced object}, "
-             "ops {set, clear}, all histories of 3 ops",
+             "ops {set, clear}, all histories of 3 ops; instance flavours falsy / empty / all-equal for every handle and "
+             "map: names a,b, keys of 1-2 components, all values and ops, 2 ops",
     'thorough': "as quick plus: 2 ops with assignment through any reachable sub-map (via); names a,'' depth 3: "
                 "all histories of 3 ops; names a,b,'' depth 2: 3 ops; names a,b,'' depth 3 with values {handle, layered map}: 3 ops; "
                 "name a depth 2 with via: 4 ops; re-insertion of displaced objects: names a,b,'' depth 2 all ops: 3 ops; "
-                "names a,b depth 2, values {handle, pre-populated map, displaced}, set with via: 4 ops",
+                "names a,b depth 2, values {handle, pre-populated map, displaced}, set with via: 4 ops; the three instance flavours: names a,b depth 2, all ops incl. re-insertion, 3 ops",
 }
 ASSUMPTIONS = [
+    'flavour entries: all handles and maps of a history are instances of subclasses that are falsy (__bool__ '
+    'False), empty (__len__ 0) or equal to everything (__eq__ True, constant __hash__); the oracle is the same, '
+    'it only ever compares identities',
     'every assigned value is a fresh object, or the very object already stored under exactly that name in that map '
     '(re-assignment in place), or (reinsert entries) an object stored earlier in the history that is '
     'stored nowhere when it is assigned again: displaced by a later assignment or dropped by clear(); an object is '
